@@ -94,3 +94,46 @@ Proof. split; vm_compute; reflexivity. Qed.
 Theorem c01_lemma_A_unrestricted_refuted : ~ lemma_A_tables_statement.
 Proof. exact lemma_A_tables_statement_refuted. Qed.
 Print Assumptions c01_lemma_A_unrestricted_refuted.
+
+(** * UPDATE, MERGE, SELECT ... INTO (the other statement kinds C01 lists).
+    [Ast/SpecDml.v] gives their syntax ([dml]) and specification ([dml_reads]: the base tables of the FROM list / USING source /
+    query at any depth, never the target unless it is also read; [dml_writes]: the target); [Tree/RenderDml.v] the parser's layout
+    (validated against the real parser on every run, suite T3-render-dml).  For every trivia, every statement size and nesting
+    depth of the embedded queries the tree walker reports exactly the specified tables - except for an UPDATE whose WHERE
+    contains a sub-query: the extractor never looks at the WHERE clause of an UPDATE (recorded as K-C01-7), so there the
+    theorem says what is reported instead (the FROM tables), and the exact condition under which that is the specification. *)
+From SV Require Import Ast.SpecDml Tree.RenderDml Tree.LemmaADmlDefs Tree.LemmaADml.
+
+Theorem c01_exact_on_update_merge_select_into : forall noise e d,
+  noise_ok noise = true -> env_ok e = true -> dml_ok d = true ->
+  stmt_reads (analyze e false (r_dml noise d)) = sort_strings (dml_reads (e_cfg e) d) /\
+  stmt_writes (analyze e false (r_dml noise d)) = sort_strings (dml_writes (e_cfg e) d).
+Proof. exact lemma_A_dml. Qed.
+Print Assumptions c01_exact_on_update_merge_select_into.
+
+(** the weakest repair: an UPDATE with a WHERE-IN sub-query is exact iff the sub-query reads nothing the FROM list does not read *)
+Theorem c01_update_where_exact_iff : forall noise e t al sets from cj wh,
+  noise_ok noise = true -> env_ok e = true -> dml_ok_base (DUpdate t al sets from cj wh) = true ->
+  (stmt_reads (analyze e false (r_dml noise (DUpdate t al sets from cj wh))) = sort_strings (dml_reads (e_cfg e) (DUpdate t al sets from cj wh))
+   <-> upd_where_ok (e_cfg e) (DUpdate t al sets from cj wh) = true).
+Proof. exact lemma_A_update_where_iff. Qed.
+Print Assumptions c01_update_where_exact_iff.
+
+(** what the code reports for EVERY update of the fragment: the FROM tables at any depth, the WHERE clause ignored *)
+Theorem c01_update_reports_from_tables_only : forall noise e t al sets from cj wh,
+  noise_ok noise = true -> env_ok e = true -> dml_ok_base (DUpdate t al sets from cj wh) = true ->
+  stmt_reads (analyze e false (r_dml noise (DUpdate t al sets from cj wh))) = sort_strings (upd_impl_reads (e_cfg e) (DUpdate t al sets from cj wh)) /\
+  stmt_writes (analyze e false (r_dml noise (DUpdate t al sets from cj wh))) = sort_strings (dml_writes (e_cfg e) (DUpdate t al sets from cj wh)).
+Proof. exact lemma_A_update_impl. Qed.
+Print Assumptions c01_update_reports_from_tables_only.
+
+(** K-C01-7: [update t set a = b from u where c in (select c from v)] - reported reads [u], specified reads [u; v] *)
+Theorem c01_refuted_update_where_subquery : ~ lemma_A_dml_statement dml_ok_base.
+Proof. exact lemma_A_dml_where_refuted. Qed.
+Print Assumptions c01_refuted_update_where_subquery.
+
+Theorem c01_update_where_witness :
+  stmt_reads (analyze e_dml false (r_dml [] upd_where_cx)) = ["<default>.u"] /\
+  sort_strings (dml_reads "" upd_where_cx) = ["<default>.u"; "<default>.v"].
+Proof. split; apply update_where_in_known_finding. Qed.
+Print Assumptions c01_update_where_witness.
